@@ -59,6 +59,8 @@ from treadmill import utils
 from treadmill import yamlwrapper as yaml
 from treadmill.appcfg import abort as app_abort
 from treadmill.appcfg import configure as real_app_cfg
+from treadmill.appcfg import manifest as app_manifest
+from treadmill.supervisor import _utils as supervisor_utils
 from treadmill.runtime import runtime_base
 
 from oracles import nodecheck
@@ -179,10 +181,32 @@ class _AppcfgOS:
         self._world = world
 
     def stat(self, path, *args, **kwargs):
+        self._world.cfg_point('stat')
         return self._world.stat(path, *args, **kwargs)
 
     def __getattr__(self, name):
         return getattr(os, name)
+
+
+class _PointModule:
+    """A module (`io`, `shutil`) as seen by one module of the code under
+    test: the named functions are pre-emption points of a running
+    configure() (World.cfg_point), everything else is the real module."""
+
+    def __init__(self, world, real, names):
+        self._real = real
+        for name in names:
+            setattr(self, name, _pointed(world, getattr(real, name), name))
+
+    def __getattr__(self, name):
+        return getattr(self._real, name)
+
+
+def _pointed(world, func, label):
+    def call(*args, **kwargs):
+        world.cfg_point(label)
+        return func(*args, **kwargs)
+    return call
 
 
 class _FakeStat:
@@ -281,10 +305,12 @@ class World:
               'sync_with_cleanup_and_running', 'settled_checks',
               'events_ignored_inactive', 'containers_started',
               'reconfigured_existing_dir', 'sync_made_cleanup_link',
-              'preempted_delete')
+              'preempted_delete', 'configure_entry_vanished')
     FAULTS = ('configure_setup_error', 'configure_generic_error',
               'configure_late_error', 'bad_manifest', 'inode_reuse',
-              'manager_killed', 'node_restarted', 'cleanup_restarted')
+              'manager_killed', 'node_restarted', 'cleanup_restarted',
+              'preempt_inside_configure',
+              'preempt_inside_configure_this_entry')
 
     def __init__(self, config, clock, log, root, seam):
         self.config = config
@@ -351,6 +377,16 @@ class World:
         self.raced = {}            # inst -> 'deleted'|'replaced' inside the
         #                            current / last synchronisation
         self.cfg_calls = 0
+        # the real configure() that is running now: its file-system calls
+        # are pre-emption points (numbered from 1 within the call)
+        self.cfg_running = None    # instance being configured
+        self.cfg_points = 0
+        self.cfg_points_max = 0
+        self.cfg_inside_fired = 0
+        self.in_preempt = False
+        self.half_configured_left = 0
+        self.partial = {}          # cname -> record of a container directory
+        #                            a configure() that did not complete left
         self.mon = monitor.Monitor(env, None)
         self.mon._tombstones = collections.deque()   # as Monitor._configure
         self.h_cleanup = plugin_manager.load('treadmill.tombstones',
@@ -467,7 +503,7 @@ class World:
         # the manager's listing of cache/ (or the event it is handling) and
         # this configure() it may delete or replace cache entries
         for pre in self.cur_preempt or ():
-            if pre.get('k') == self.cfg_calls:
+            if pre.get('k') == self.cfg_calls and pre.get('at') is None:
                 self._preempt(pre, inst)
         ent = self.cache.get(inst)
         fault = None
@@ -485,22 +521,49 @@ class World:
             raise RuntimeError('injected configure failure')
         pre_exists = bool(ent and ent.get('uname')) and os.path.isdir(
             os.path.join(self.tm_env.apps_dir, ent['uname']))
+        apps_before = set(os.listdir(self.tm_env.apps_dir))
+        fired_before = self.cfg_inside_fired
+        self.cfg_running = inst
+        self.cfg_points = 0
         try:
             cdir = real_app_cfg.configure(tm_env, event_file, runtime,
                                           runtime_param)
         except Exception as err:
+            self.cfg_running = None
             self.probes['configure_failed'] += 1
+            self._note_partial(apps_before, inst, ent)
+            if self.cfg_inside_fired != fired_before:
+                # the cache changed under the running configure(): whatever
+                # it raises is the manager's to handle (_configure discards)
+                self.log.ev('configure', inst, 'raised-after-preemption',
+                            type(err).__name__)
+                raise
             if ent is not None and not ent['bad']:
                 # the real configure() refused a manifest the harness
                 # considers valid: the harness is wrong about something
                 raise HarnessError('configure(%s) raised %r' % (inst, err))
             self.log.ev('configure', inst, 'raised', type(err).__name__)
             raise
+        finally:
+            self.cfg_running = None
+            self.cfg_points_max = max(self.cfg_points_max, self.cfg_points)
         self._refresh_ctimes()
         if cdir is None:
+            if ent is not None:
+                self.probes['configure_entry_vanished'] += 1
+            self._note_partial(apps_before, inst, ent)
             self.log.ev('configure', inst, None)
             return None
         cname = os.path.basename(cdir)
+        if self.cfg_inside_fired != fired_before:
+            # the entry may have been replaced while configure() was between
+            # two steps: the container is the one of the generation whose
+            # unique name it carries (the one the manifest was loaded from)
+            now = self.cache.get(inst)
+            if (ent is None or ent.get('uname') != cname) and \
+                    now is not None and now.get('uname') == cname:
+                ent = now
+        self.partial.pop(cname, None)
         gen = ent['gen'] if ent is not None else None
         rec = self.containers.get(cname)
         if rec is None:
@@ -538,25 +601,81 @@ class World:
             raise RuntimeError('injected failure after configure')
         return cdir
 
-    def _preempt(self, pre, this_inst):
-        """Nested world ops of the cache writer (recorded inside the op)."""
-        what = pre.get('do')
-        inst = this_inst if what.endswith('-this') else pre.get('inst')
-        if inst not in self.cache:
+    def _note_partial(self, apps_before, inst, ent):
+        """Container directories a configure() that did not complete made
+        and left behind (truth: they belong to the entry it was given)."""
+        for cname in sorted(set(os.listdir(self.tm_env.apps_dir)) -
+                            apps_before):
+            if cname in self.containers:
+                continue
+            self.half_configured_left += 1
+            self.partial[cname] = {
+                'inst': inst, 'gen': ent['gen'] if ent is not None else None,
+                'configures': 0, 'finished': None, 'had_running': False,
+                'failed': False, 'partial': True, 'last_configure': None,
+                'key': self._uid_key(ent), 'incarnation': 1}
+            self.log.ev('half-configured-left', cname)
+
+    def cfg_point(self, label):
+        """A file-system call of the real configure() that is running: the
+        event manager (another process) may act right before it."""
+        if self.cfg_running is None or self.in_preempt:
             return
+        self.cfg_points += 1
+        for pre in self.cur_preempt or ():
+            if pre.get('k') == self.cfg_calls and \
+                    pre.get('at') == self.cfg_points:
+                self.in_preempt = True
+                try:
+                    self.log.ev('preempt-inside', self.cfg_points, label)
+                    if self._preempt(pre, self.cfg_running,
+                                     in_sync=bool(self.in_sync)):
+                        self.cfg_inside_fired += 1
+                        self.faults['preempt_inside_configure'] += 1
+                        target = pre.get('inst') if not pre.get(
+                            'do', '').endswith('-this') else self.cfg_running
+                        if target == self.cfg_running:
+                            self.faults[
+                                'preempt_inside_configure_this_entry'] += 1
+                finally:
+                    self.in_preempt = False
+
+    def _preempt(self, pre, this_inst, in_sync=True):
+        """Nested world ops of the cache writer (recorded inside the op).
+        True if the cache changed."""
+        what = pre.get('do') or ''
+        inst = this_inst if what.endswith('-this') else pre.get('inst')
+        if what == 'put':
+            if inst in self.cache or inst not in INSTANCES:
+                return False
+            self.log.ev('preempt', what, inst)
+            nested = {'inst': inst, 'bad': False}
+            if pre.get('ino') is not None:
+                nested['ino'] = pre['ino']
+            self.op_put(nested)
+            if in_sync:
+                self.raced[inst] = 'created'
+            return True
+        if inst not in self.cache:
+            return False
         self.log.ev('preempt', what, inst)
         if what in ('del', 'del-this'):
             self.op_del({'inst': inst})
-            self.raced[inst] = 'deleted'
+            if in_sync:
+                self.raced[inst] = 'deleted'
             self.probes['preempted_delete'] += 1
-        elif what in ('replace', 'replace-this'):
+            return True
+        if what in ('replace', 'replace-this'):
             self.op_del({'inst': inst})
             nested = {'inst': inst, 'bad': False}
             if pre.get('ino') is not None:
                 nested['ino'] = pre['ino']
             self.op_put(nested)
-            self.raced[inst] = 'replaced'
+            if in_sync:
+                self.raced[inst] = 'replaced'
             self.preempted_replace += 1
+            return True
+        return False
 
     # -- the supervision model (s6) --------------------------------------------
     def control_svscan(self, scan_dir, actions):
@@ -875,6 +994,12 @@ class World:
             bad = nodecheck.disturbed(self.sync_unchanged, links, self.cache,
                                       self.containers, env.apps_dir,
                                       'settled', hist)
+        if bad is None and self.partial:
+            # what a configure() that did not complete left in apps/: never
+            # linked in running/, so it is in cleanup or removed by now
+            bad = nodecheck.uncleaned(links, self.cache, self.partial,
+                                      env.apps_dir, False, 'settled', hist,
+                                      self.raced)
         self.check(bad)
         self.log.ev('settled')
 
@@ -1254,7 +1379,8 @@ OP_WEIGHTS = [
 
 SCENARIOS = ('regen_restart', 'batch', 'rewrite', 'finish_restart', 'stale',
              'between', 'regen_node_restart', 'double_terminate',
-             'finish_before_stale_created', 'reboot_race')
+             'finish_before_stale_created', 'reboot_race',
+             'evict_during_configure')
 
 
 class Generator:
@@ -1267,6 +1393,7 @@ class Generator:
         self.fault = streams.get('fault')
         self.fsorder = streams.get('fsorder')
         self.queue = []
+        self.points_max = 0        # file-system calls of one configure()
         self.insts = list(INSTANCES[:config['n_inst']])
         self.weights = [(k, w * config['wmul'].get(k, 1.0))
                         for k, w in OP_WEIGHTS]
@@ -1284,7 +1411,24 @@ class Generator:
                               ['setup', 'generic', 'late'])}
         if self.sched.random() < self.config.get('p_preempt', 0.0):
             op['preempt'] = [self._preempt()]
+        if self.sched.random() < self.config.get('p_preempt_inside', 0.0):
+            op.setdefault('preempt', []).append(self._preempt_inside())
         return op
+
+    def _preempt_inside(self, k=None, do=None, at=None):
+        """The cache writer acts right before the `at`-th file-system call
+        of the k-th configure() of the op."""
+        if do is None:
+            do = self.sched.choice(['del-this', 'del-this', 'del-this',
+                                    'replace-this', 'del', 'put', 'replace'])
+        if at is None:
+            at = self.sched.randint(1, max(8, self.points_max))
+        pre = {'k': k if k is not None else
+                    self.sched.choice([1, 1, 1, 2, 3]),
+               'at': at, 'do': do}
+        if not do.endswith('-this'):
+            pre['inst'] = self.sched.choice(self.insts)
+        return pre
 
     def _preempt(self, k=None, do=None):
         """The cache writer acts between the manager's listing / event and
@@ -1332,6 +1476,7 @@ class Generator:
 
     # -- single ops
     def next_op(self, world):
+        self.points_max = world.cfg_points_max
         if self.queue:
             return self.queue.pop(0)
         rng = self.rng
@@ -1543,6 +1688,38 @@ class Generator:
         ops.append(settle)
         return ops
 
+    def s_evict_during_configure(self, world):
+        # the master takes the placement away right after making it: the
+        # event manager removes (or replaces) the cache entry while the
+        # manager is inside configure() for it - on the created event, or in
+        # the first synchronisation of a restarted manager
+        inst = self._inst(world, cached=False)
+        ops = []
+        if inst is None:
+            inst = self._inst(world)
+            ops.append({'op': 'del', 'inst': inst})
+        do = 'del-this' if self.rng.random() < 0.8 else None
+        if self.rng.random() < 0.6:
+            if world.mgr is None:
+                ops.append({'op': 'mgr_restart'})
+            ops.append({'op': 'ready'} if not world.writer_ready
+                       else {'op': 'notify'})
+            ops += [{'op': 'settle', 'order': self._order()},
+                    self._put(world, inst, bad=False),
+                    {'op': 'mgr_step', 'order': self._order(),
+                     'max_events': 1,
+                     'preempt': [self._preempt_inside(k=1, do=do)]}]
+        else:
+            ops += [self._put(world, inst, bad=False), {'op': 'mgr_restart'},
+                    {'op': 'ready'} if not world.writer_ready
+                    else {'op': 'notify'},
+                    {'op': 'settle', 'order': self._order(),
+                     'preempt': [self._preempt_inside(
+                         k=self.sched.randint(1, max(1, len(world.cache) + 1)),
+                         do=do)]}]
+        ops.append({'op': 'settle', 'order': self._order()})
+        return ops
+
     def s_between(self, world):
         # an event for X between the delete and the create of Y
         inst, ops = self._running_first(world)
@@ -1603,6 +1780,9 @@ def make_config(prop, tier, rng):
         # replacement (delete + create of the same instance) inside one
         # synchronisation
         'preempt_replace': bool(rng.random() < 0.5),
+        # the event manager acts between two file-system calls of a running
+        # configure()
+        'p_preempt_inside': rng.choice([0.0, 0.05, 0.15, 0.3]),
     }
 
 
@@ -1686,7 +1866,9 @@ class NodeSim(enginemod.Engine):
                 'multi-op histories (evict-and-replace while generation 1 '
                 'awaits cleanup then restart; delete+create in one batch or '
                 'two; re-write while not ready; finish then restart; events '
-                'queued behind the READY event; node restart) over <= 4 '
+                'queued behind the READY event; node restart; cache entry '
+                'deleted/replaced between two file-system calls of the '
+                'configure() working on it) over <= 4 '
                 'instance names; every scheduling, ordering, inode and fault '
                 'decision is in the recorded op; invariants after every '
                 'handler call, the synchronisation clauses after every '
@@ -1707,10 +1889,19 @@ class NodeSim(enginemod.Engine):
             'only the creation of a running link onto a container holding '
             'such a file is forbidden',
             'the event manager acts inside a manager handler only at the '
-            'entry of configure() (delete, or delete + re-create, of any '
-            'entry); an instance whose entry changed inside a synchronisation '
-            'is judged when its events are processed, not at the end of that '
+            'entry of configure() and right before one of the file-system '
+            'calls the running configure() makes (manifest open, stat, '
+            'fs.mkdir_safe, every io.open of the s6 service directory, '
+            'shutil.copyfile/rmtree, fs.write_safe: ~17 points per call, '
+            'recorded as {k, at, do}): delete, delete + re-create, or '
+            'creation of any entry; nowhere else inside a handler; an '
+            'instance whose entry changed inside a synchronisation is judged '
+            'when its events are processed, not at the end of that '
             'synchronisation',
+            'a directory that appears in apps/ during a configure() call '
+            'that returns None or raises belongs to the entry that call was '
+            'given; when the active manager has no event left it must be '
+            'linked in cleanup/ or be gone unless that entry is still cached',
             'unique-id collisions caused by the 77-bit truncation of '
             '(ctime, inode) are not searched for adversarially (ctime comes '
             'from the virtual clock, >= 1 ms per op)',
@@ -1739,6 +1930,19 @@ class NodeSim(enginemod.Engine):
         patches.set(fs, 'replace', world.fs_replace)
         patches.set(fs, 'symlink_safe', world.fs_symlink_safe)
         patches.set(appcfg, 'os', _AppcfgOS(world))
+        # pre-emption points inside a running configure(): the file-system
+        # calls it makes (manifest read, stat, mkdir, every file of the s6
+        # service directory, the manifest copy, app.json, the trace event)
+        patches.set(fs, 'mkdir_safe', _pointed(world, fs.mkdir_safe, 'mkdir'))
+        patches.set(fs, 'write_safe', _pointed(world, fs.write_safe,
+                                               'write_safe'))
+        patches.set(app_manifest, 'io',
+                    _PointModule(world, io, ('open',)))
+        patches.set(supervisor_utils, 'io',
+                    _PointModule(world, io, ('open',)))
+        patches.set(real_app_cfg, 'shutil',
+                    _PointModule(world, real_app_cfg.shutil,
+                                 ('copyfile', 'rmtree')))
         patches.set(appcfgmgr, 'glob', fsseam.SeamGlob(seam))
         patches.set(cleanupmod, 'glob', fsseam.SeamGlob(seam))
         patches.set(appcfgmgr, 'app_cfg', _CfgSeam(world))
@@ -1817,7 +2021,9 @@ class NodeSim(enginemod.Engine):
                 'unique_name_collisions': world.unique_name_collisions,
                 'manager_died_in_handler': world.mgr_died,
                 'cache_inode_changes': world.cache_inode_changes,
-                'preempted_replace': world.preempted_replace}
+                'preempted_replace': world.preempted_replace,
+                'configure_points_max': world.cfg_points_max,
+                'half_configured_left': world.half_configured_left}
             res.fps = world.fps
             res.nontrivial = world.nontrivial
             res.trace_fp = logmod.fingerprint(executed)
@@ -1884,6 +2090,10 @@ def _hooked_configure(mgr, instance_name):
             rec = world.containers[cname]
             if rec['inst'] == instance_name and rec['gen'] == gen and \
                     not rec['had_running']:
+                rec['failed'] = True
+        for cname in sorted(world.partial):
+            rec = world.partial[cname]
+            if rec['inst'] == instance_name and rec['gen'] == gen:
                 rec['failed'] = True
         world.log.ev('configure-failed', instance_name)
     return done
